@@ -61,6 +61,9 @@ impl<'a> ReMatcher<'a> {
         self.set_paren_count(1);
         self.state.borrow_mut().anchored_match = anchored;
         self.set_paren_start(0, i);
+        // the zero-length-match memo belongs to one matching attempt: what was
+        // tried from an earlier start position says nothing about this one
+        self.state.borrow_mut().history = History::new();
 
         // allocate backref arrays (unless optimizations indicate otherwise)
         if self.program.optimization_flags & OPT_HASBACKREFS != 0 {
